@@ -17,6 +17,7 @@ import (
 	"math/big"
 	"sort"
 	"strings"
+	"sync/atomic"
 	"time"
 )
 
@@ -486,6 +487,21 @@ type ErrUnsupported struct{ What string }
 
 func (e *ErrUnsupported) Error() string { return "pgsim: unsupported SQL: " + e.What }
 
+// unsupportedSeen counts the ErrUnsupported values created in this process; lastUnsupported keeps the latest.
+var (
+	unsupportedSeen atomic.Int64
+	lastUnsupported atomic.Value
+)
+
+// UnsupportedSeen returns how many statements fell outside the stand-in's SQL subset so far, and the latest one.
+func UnsupportedSeen() (int64, string) {
+	s, _ := lastUnsupported.Load().(string)
+	return unsupportedSeen.Load(), s
+}
+
 func unsupported(format string, args ...any) error {
-	return &ErrUnsupported{What: fmt.Sprintf(format, args...)}
+	e := &ErrUnsupported{What: fmt.Sprintf(format, args...)}
+	unsupportedSeen.Add(1)
+	lastUnsupported.Store(e.What)
+	return e
 }
